@@ -86,13 +86,14 @@ def mk_connection(msg_size):
 class FakeLoop:
     """loop.sock_recv_into(io, view): delivers the stream in symbolic chunk sizes."""
 
-    def __init__(self, ctx, stream, eof_at, max_chunks):
+    def __init__(self, ctx, stream, eof_at, max_chunks, wanted=None):
         self.ctx = ctx
         self.stream = stream
         self.pos = 0
         self.eof_at = eof_at
         self.calls = 0
         self.max_chunks = max_chunks
+        self.wanted = wanted   # big reads: chunk sizes are picked from boundary candidates instead of every value
 
     def deliver(self, view):
         ctx = self.ctx
@@ -104,6 +105,10 @@ class FakeLoop:
         cap = min(room, avail)
         if self.max_chunks is not None and self.calls >= self.max_chunks:
             n = cap
+        elif self.wanted is not None:
+            # as much as the caller's buffer takes / exactly what the message still needs / one standard message / a byte
+            cands = sorted({cap, min(cap, max(1, self.wanted - self.pos)), min(cap, 4096), 1})
+            n = ctx.pick('chunk%d' % self.calls, cands)
         else:
             n = ctx.int('chunk%d' % self.calls, 1, cap)
             n = ctx.concretize(n)
@@ -129,11 +134,18 @@ class FakeSock:
         return 3
 
 
-def h_chunk(ctx, number, twin, max_chunks, extra=2):
+def h_chunk(ctx, number, twin, max_chunks, extra=2, big=False):
     total = number + extra
-    stream = ctx.bytes('s', total)
-    eof_at = ctx.choice('eof_at', total + 1)  # connection closes after eof_at bytes
-    loop = FakeLoop(ctx, stream, eof_at, max_chunks)
+    if big:
+        # a body larger than one standard message (extended messages): only the edges are symbolic, the bulk is a
+        # concrete pattern; the bytes of the NEXT message follow at once (coalesced delivery)
+        stream = SBytes(list(ctx.bytes('head', 4).items) + [(i * 7 + 3) % 256 for i in range(number - 8)] + list(ctx.bytes('tail', 4 + extra).items)) \
+            if ctx.sym else bytes(ctx.bytes('head', 4)) + bytes((i * 7 + 3) % 256 for i in range(number - 8)) + bytes(ctx.bytes('tail', 4 + extra))
+        eof_at = total
+    else:
+        stream = ctx.bytes('s', total)
+        eof_at = ctx.choice('eof_at', total + 1)  # connection closes after eof_at bytes
+    loop = FakeLoop(ctx, stream, eof_at, max_chunks, wanted=number if big else None)
     c = mk_connection(4096)
     if twin == 'async':
         cm.asyncio = type('A', (), {'get_event_loop': staticmethod(lambda: loop), 'CancelledError': type('CancelledError', (BaseException,), {})})
@@ -452,6 +464,13 @@ def units(tier):
     for n in ((1, 2, 3) if thorough else (1, 2)):
         us.append(Unit('proto/m%d' % n, lambda ctx, n=n: h_proto(ctx, n),
                        must_cover=('err-1-1', 'err-1-2', 'err-1-3', 'keepalive') + (('second-message',) if n > 1 else ()), weight=30 * n))
+    # reads larger than one standard message (only possible once extended messages are negotiated): the reader must take
+    # exactly `number` bytes however the kernel coalesces them with the next message
+    for number in ((4097, 5000, 8192, 8193, 12289) if thorough else (4097, 5000)):
+        us.append(Unit('big/async/n%d' % number, lambda ctx, n=number: h_chunk(ctx, n, 'async', 3, extra=19, big=True),
+                       must_cover=('delivered', 'split'), weight=40))
+        us.append(Unit('big/gen/n%d' % number, lambda ctx, n=number: h_chunk(ctx, n, 'gen', 3, extra=19, big=True),
+                       must_cover=('delivered', 'split'), weight=40))
     for n in ((1, 2) if thorough else (1,)):
         us.append(Unit('pause/p%d' % n, lambda ctx, n=n: h_pause(ctx, n),
                        must_cover=('pause-between-messages', 'pause-inside-header', 'pause-between-header-and-body', 'pause-inside-body',
